@@ -391,6 +391,9 @@ func c07Point(buf []int32, kind string, a, b, c int, mv *midiView) (sig []int32,
 			bad("%s accepts the %s message % X", midiAccNames[j], dec.kind, []byte(m))
 		}
 	}
+	if mv.nilProblem != "" {
+		bad("%s (message % X)", mv.nilProblem, []byte(m))
+	}
 	if mv.typ != c07Type[dec.kind] {
 		bad("Type() of % X is %d, want %d (%s)", []byte(m), mv.typ, c07Type[dec.kind], dec.kind)
 	}
